@@ -20,7 +20,7 @@ def main():
     wt = "/tmp/wt_seedverify_%d" % os.getpid()
     sh("git -C /repo worktree remove --force %s" % wt)
     rc, o = sh("git -C /repo worktree add -q --detach %s HEAD" % wt)
-    env = dict(os.environ, CARGO_NET_OFFLINE="true", CARGO_TARGET_DIR="/tmp/seed_target_verify")
+    env = dict(os.environ, CARGO_NET_OFFLINE="true", CARGO_TARGET_DIR="/tmp/seed_target_verify" + os.environ.get("SEEDW", ""))
     try:
         patch = os.path.abspath(os.path.join(seed, "patch.diff"))
         demo = os.path.abspath(os.path.join(seed, "demo.patch"))
@@ -45,7 +45,7 @@ def main():
     sh("git -C /repo worktree add -q --detach %s HEAD" % wt2)
     try:
         rc, o = sh("git apply %s" % os.path.abspath(os.path.join(seed, "patch.diff")), cwd=wt2)
-        env2 = dict(os.environ, KOGE29_REPO=wt2, VERIF_TARGET_SUFFIX="-seed", VERIF_EVIDENCE_DIR=os.path.join(out, "evidence"),
+        env2 = dict(os.environ, KOGE29_REPO=wt2, VERIF_TARGET_SUFFIX="-seed" + os.environ.get("SEEDW", ""), VERIF_EVIDENCE_DIR=os.path.join(out, "evidence"),
                     VERIF_REPLAY_DIR=os.path.join(out, "replays"))
         for c in checks:
             t0 = time.time()
